@@ -22,7 +22,7 @@ ID = "C17"
 LEVEL = "model_checking"
 ASSUMPTIONS = [
     "threads and synchronisation objects of halmos.processes / concurrent.futures are replaced by scheduler-owned shims (module attributes rebound in the harness process); scheduling points = every shim operation + every source line of processes.py (sys.settrace)",
-    "subprocesses are simulated: Popen/psutil.Process/time inside halmos.processes; a process is {running, exited(rc)}; exit, communicate()-timeout expiry and spawn failure are environment choices of the explorer; terminate()/kill() take effect at once",
+    "subprocesses are simulated: Popen/psutil.Process/time inside halmos.processes; a process is {running, exited(rc)}; exit, communicate()-timeout expiry and spawn failure are environment choices of the explorer; kill() takes effect at once; SIGTERM normally too, but a process may ignore it (environment choice): then the 0.5 s grace wait raises psutil.TimeoutExpired and only kill() ends it",
     "bounds: harnesses with 1-3 jobs and 2-4 threads; all schedules with <= 1 (quick) / <= 2 (thorough) deviations from the default schedule (run the current thread while it can, environment events last); a budget cap is reported if hit",
     "a free-running pass of the same harness bodies with real threads and real `sleep`/`echo` subprocesses checks that the simulated protocol matches the real one on scripted scenarios",
 ]
